@@ -1,9 +1,9 @@
 package props
 
 import (
-	"math"
 	"context"
 	"fmt"
+	"math"
 	"strings"
 
 	"github.com/cloudwego/dynamicgo/conv"
@@ -67,6 +67,11 @@ func c16Struct(r *h.Rand, sc *gen.Schema, depth int, n *int) *gen.StructT {
 					f.Default = tref.Int32(int32(7 + r.Intn(1000)))
 				case tref.STRING:
 					f.Default = tref.Str(fmt.Sprintf("dflt%d", r.Intn(100)))
+					if r.Chance(30) {
+						// characters that have to be escaped in JSON but not in the IDL literal
+						f.Default = tref.Str([]string{`say "hi" %d`, `"%d"`, `a"b"c%d"`, `it's %d`, `<%d> & co`}[r.Intn(5)])
+						f.Default.S = []byte(fmt.Sprintf(string(f.Default.S), r.Intn(100)))
+					}
 				case tref.BOOL:
 					f.Default = tref.Bool(true)
 				case tref.DOUBLE:
@@ -84,7 +89,9 @@ func c16Struct(r *h.Rand, sc *gen.Schema, depth int, n *int) *gen.StructT {
 				}
 				// negative defaults and the ends of the type's range
 				if f.Default != nil && r.Chance(30) {
-					pick := func(min, max int64) int64 { return []int64{min, max, min + 1, max - 1, -1, -(1 + int64(r.Intn(100)))}[r.Intn(6)] }
+					pick := func(min, max int64) int64 {
+						return []int64{min, max, min + 1, max - 1, -1, -(1 + int64(r.Intn(100)))}[r.Intn(6)]
+					}
 					switch k {
 					case tref.BYTE:
 						f.Default = tref.Byte(int8(pick(math.MinInt8, math.MaxInt8)))
